@@ -96,10 +96,13 @@ def run(ctx):
     nscen = 3 if q else 12
     for si in range(nscen):
         scen = packconc.make(rng)
-        scen['second_packer'] = False
+        scen['second_packer'] = si % 3 == 2
+        scen['third_packer'] = si % 3 == 2       # three overlapping pack requests: all but one must be refused
         scen['blob_dir'] = si % 2 == 1
         yio = si % 3 != 2
         names = ['packer'] + ['committer%d' % i for i in range(len(scen['committers']))] + ['reader']
+        if scen['second_packer']:
+            names += ['packer2', 'packer3']
         cal = packconc.run((scen, 0, os.path.join(ctx.scratch, 'cal-%d' % si), {'plan': [], 'order': names, 'yield_io': yio}))
         for victim in names:
             others = [n for n in names if n != victim]
